@@ -110,7 +110,8 @@ def main():
         meta["needs_to_manifest"] = open(notes).read()[:1500]
     meta["what_was_run"] = [
         "in a scratch worktree: demo on clean tree (pass), git apply patch.diff, " + TESTS + " (pass), demo (fail), revert",
-        "git -C /repo apply patch.diff; ./run <check> %s for the checks listed in checks_run; git -C /repo checkout -- ." % tier,
+        ("git -C %s apply patch.diff; VERIF_REPO=%s ./run <check> %s for the checks listed in checks_run; git -C %s checkout -- ." % (os.environ.get("SEED_REPO", "/repo"), os.environ.get("SEED_REPO", "/repo"), tier, os.environ.get("SEED_REPO", "/repo")))
+        + (" (a scratch worktree of /repo's HEAD, because /repo itself was in use by a long run)" if os.environ.get("SEED_REPO") else ""),
     ]
     json.dump(meta, open(sd + "/meta.json", "w"), indent=1)
     print("KEPT", sd, "caught_by", meta["caught_by"])
